@@ -63,6 +63,12 @@ pub enum Platform {
 impl Platform {
     #[allow(unreachable_code)]
     pub fn detect() -> Self {
+        #[cfg(blake3_team_blake3_verif)]
+        {
+            if let Some(forced) = verif_forced_platform() {
+                return forced;
+            }
+        }
         #[cfg(miri)]
         {
             return Platform::Portable;
@@ -540,4 +546,33 @@ pub fn le_bytes_from_words_64(words: &[u32; 16]) -> [u8; 64] {
     *array_mut_ref!(out, 14 * 4, 4) = words[14].to_le_bytes();
     *array_mut_ref!(out, 15 * 4, 4) = words[15].to_le_bytes();
     out
+}
+
+// Verification hook (off unless built with --cfg blake3_team_blake3_verif): lets a test harness
+// run the whole crate at a chosen SIMD level from a single build. The harness is responsible for
+// only forcing levels that the CPU supports (see Platform::sse2() etc.).
+#[cfg(blake3_team_blake3_verif)]
+static VERIF_FORCED_PLATFORM: core::sync::atomic::AtomicU8 = core::sync::atomic::AtomicU8::new(0);
+
+/// 0 = no override, 1 = portable, 2 = SSE2, 3 = SSE4.1, 4 = AVX2, 5 = AVX-512.
+#[cfg(blake3_team_blake3_verif)]
+pub fn verif_force_platform(level: u8) {
+    VERIF_FORCED_PLATFORM.store(level, core::sync::atomic::Ordering::SeqCst);
+}
+
+#[cfg(blake3_team_blake3_verif)]
+fn verif_forced_platform() -> Option<Platform> {
+    match VERIF_FORCED_PLATFORM.load(core::sync::atomic::Ordering::SeqCst) {
+        1 => Some(Platform::Portable),
+        #[cfg(any(target_arch = "x86", target_arch = "x86_64"))]
+        2 => Some(Platform::SSE2),
+        #[cfg(any(target_arch = "x86", target_arch = "x86_64"))]
+        3 => Some(Platform::SSE41),
+        #[cfg(any(target_arch = "x86", target_arch = "x86_64"))]
+        4 => Some(Platform::AVX2),
+        #[cfg(blake3_avx512_ffi)]
+        #[cfg(any(target_arch = "x86", target_arch = "x86_64"))]
+        5 => Some(Platform::AVX512),
+        _ => None,
+    }
 }
